@@ -1,4 +1,5 @@
 CONSTANTS
+  WithViews = FALSE
   MaxDim = 1000
   MaxCount = 100000
   Depth = 1000000
